@@ -16,12 +16,16 @@ import (
 
 var VerifC14MaxParams = 3
 
+// parameters considered together with the two wide regexes (.* and one matching the empty name)
+var VerifC14WideRegexParams = 2
+
 const (
 	verifPPlain = iota
 	verifPConverter
 	verifPTargetName
 	verifPCtxRegex
 	verifPCtxLocal
+	verifPUnnamed // a parameter written without a name
 	verifPKinds
 )
 
@@ -67,6 +71,8 @@ func VerifHarness_C14_Parse() {
 			name = "ctx" + plainNames[i]
 		case verifPCtxLocal:
 			name = "local" + plainNames[i]
+		case verifPUnnamed:
+			name = ""
 		}
 		params = append(params, types.NewParam(token.NoPos, verifUserPkg, name, t))
 	}
@@ -117,9 +123,28 @@ func VerifHarness_C14_Parse() {
 	if update {
 		opts.UpdateParam = "target"
 	}
-	hasRegex := nondetChoice("opts.ContextMatch", 2) == 1
-	if hasRegex {
+	// no regex, the usual prefix regex, the implicit regex of struct-method sources (everything is a context),
+	// and a user regex that also matches the empty name
+	regexKind := nondetChoice("opts.ContextMatch", 4)
+	verifAssume(regexKind < 2 || n <= VerifC14WideRegexParams)
+	switch regexKind {
+	case 1:
 		opts.ContextMatch = regexp.MustCompile("^ctx")
+	case 2:
+		opts.ContextMatch = regexp.MustCompile(".*")
+	case 3:
+		opts.ContextMatch = regexp.MustCompile("^(ctx.*)?$")
+	}
+	matches := func(kind int) bool {
+		switch regexKind {
+		case 1:
+			return kind == verifPCtxRegex
+		case 2:
+			return true
+		case 3:
+			return kind == verifPCtxRegex || kind == verifPUnnamed
+		}
+		return false
 	}
 	hasConv := nondetChoice("opts.Converter", 2) == 1
 	if hasConv {
@@ -147,7 +172,7 @@ func VerifHarness_C14_Parse() {
 		case kinds[i] == verifPTargetName && update:
 			roles[i] = ArgUseTarget
 			hasTarget = true
-		case (kinds[i] == verifPCtxRegex && hasRegex) || kinds[i] == verifPCtxLocal:
+		case matches(kinds[i]) || kinds[i] == verifPCtxLocal:
 			roles[i] = ArgUseContext
 		default:
 			if sources == 0 {
@@ -212,7 +237,16 @@ func VerifHarness_C14_Parse() {
 	nctx := 0
 	for i := 0; i < n; i++ {
 		if roles[i] == ArgUseContext {
-			nctx++
+			// contexts are registered by type: two context parameters of one type share the entry
+			first := true
+			for j := 0; j < i; j++ {
+				if roles[j] == ArgUseContext && types.Identical(params[j].Type(), params[i].Type()) {
+					first = false
+				}
+			}
+			if first {
+				nctx++
+			}
 			_, ok := def.Context[def.RawArgs[i].Type.String]
 			verifAssert("context-registered-by-type", ok)
 		}
